@@ -159,8 +159,9 @@ structure St where
   db : Db := {}
   committed : Db := {}
   uow : Option Uow := none
-  /-- database snapshots taken at the open savepoints, innermost first -/
-  sps : List Db := []
+  /-- what is remembered at the open savepoints, innermost first: the database snapshot and the
+  unit of work's state at SAVEPOINT (`none` if the unit of work did not exist yet) -/
+  sps : List (Db × Option Uow) := []
   /-- an `IntegrityError` / `StaleDataError` raised by continuum's own writes -/
   err : Bool := false
 deriving Repr
@@ -322,14 +323,17 @@ def step (cfg : Cfg) (s : St) : Ev → St
         err := s.err || dup }
   | .commit => { s with committed := s.db, uow := none, sps := [] }
   | .rollback => { s with db := s.committed, uow := none, sps := [] }
-  | .spBegin => { s with sps := s.db :: s.sps }
+  | .spBegin => { s with sps := (s.db, s.uow) :: s.sps }
   | .spCommit => { s with sps := s.sps.tail }
-  -- the DBMS restores the tables; `manager.clear` returns early inside a nested transaction, so
-  -- the unit of work (current transaction, operations, version-object cache) is left as it is
+  -- the DBMS restores the tables; the unit of work goes back to what it knew at SAVEPOINT
+  -- (current transaction and operations as remembered when the savepoint began; dropped entirely
+  -- if it did not exist then); the version-object cache and the pending association statements
+  -- are emptied
   | .spRollback =>
     match s.sps with
     | [] => s
-    | snap :: rest => { s with db := snap, sps := rest }
+    | (snap, u) :: rest =>
+      { s with db := snap, uow := u.map (fun u => { u with vobjs := [], pending := [] }), sps := rest }
 
 def run (cfg : Cfg) (s : St) (evs : List Ev) : St := evs.foldl (step cfg) s
 
